@@ -22,15 +22,24 @@ def describe(ck):
 
 def r14a(ck, prog):
     cg = CallGraph(prog)
+    from ..lift import Lifted
     K = prog.fn("kalign_run")
-    cfg = K.cfg
-    fin = [cfg.position(c) for c in K.body.calls("finalise_alignment")]
-    if not fin:
-        raise AnalysisBroken("R14a slot: kalign_run does not call finalise_alignment")
+    L = Lifted(prog, cg)
+    found = L.find_call(K, "finalise_alignment")
+    if not found:
+        raise AnalysisBroken("R14a slot: kalign_run (and its private helpers) do not call finalise_alignment")
     pre = set()
-    for c in K.body.calls():
-        if c.callee in cg.defined and c.callee != "finalise_alignment" and any(cfg.reaches(cfg.position(c), f) for f in fin):
-            pre.add(c.callee)
+    for G, f in found:
+        cfg = G.cfg
+        for c in G.body.calls():
+            if c.callee in cg.defined and c.callee != "finalise_alignment" and cfg.reaches(cfg.position(c), cfg.position(f)):
+                pre.add(c.callee)
+        if G is not K:
+            cfgk = K.cfg
+            hs = [h for h in L.sites(K, "finalise_alignment", "may")]
+            for c in K.body.calls():
+                if c.callee in cg.defined and c not in hs and any(cfgk.reaches(cfgk.position(c), cfgk.position(h)) for h in hs):
+                    pre.add(c.callee)
     reach = cg.reachable(pre)
     readers = {}
     for name in sorted(reach):
